@@ -11,6 +11,9 @@ import (
 	"verif/mc"
 )
 
+// debugDump is set by debug tests only.
+var debugDump func(r *runCtx)
+
 var userActions = []string{"restart-ini", "fail-next-commit", "fail-next-read", "ini-pause", "ini-resume", "rsp-pause", "rsp-resume", "ini-voucher", "rsp-voucher-result", "disconnect", "heal", "restart-rsp", "tick"}
 
 func terminal(s datatransfer.Status) bool {
@@ -95,8 +98,10 @@ func (r *runCtx) actionEnabled(a string) bool {
 }
 
 // idle advances the virtual clock a little so that graphsync / libp2p timers can make progress.
+var idleDur = 200 * time.Millisecond
+
 func idle() {
-	time.Sleep(200 * time.Millisecond)
+	time.Sleep(idleDur)
 	mc.Wait()
 }
 
@@ -183,6 +188,9 @@ func explore(x *mc.Cell, sc Scenario, c *mc.Chooser, name string, withActions bo
 		rep := mc.EnumReplay(name, c)
 		ex.Premise, ex.Outcome = r.check(x, rep)
 		x.DebugLog = r.log
+		if debugDump != nil {
+			debugDump(r)
+		}
 	})
 	if pv != nil {
 		x.Violate("C01", "panic", fmt.Sprintf("%s: %v\n%s", sc, pv, stack), mc.EnumReplay(name, c))
@@ -205,12 +213,20 @@ func init() {
 				for _, pr := range profiles {
 					sc := Scenario{Pull: pull, DAG: d, Stores: st, Profile: pr}
 					quick := (d == 1 || d == 3) && (st == "default" || st == "both") && pr != "finalize-resume"
+					if d == 1 && st == "receiver" && pr == "force-pause" {
+						// a restart before the first block with a per-channel store on the receiving side only (seeded change
+						// C01-r2: the restarted request must still write into the channel's store)
+						quick = true
+					}
 					if quick {
 						mc.Register("C01", "events+actions/"+sc.String(), "quick", func(x *mc.Cell) { c01Scenario(x, sc, 1, true) })
 					}
-					thoroughBound := 2
-					if d >= 4 {
-						thoroughBound = 1
+					// bound 2 (two deviations from the default delivery order / two user actions) is affordable for the
+					// quick-tier scenario subset only; the other scenarios are explored to bound 1 (measured: bound 2
+					// everywhere = 226k executions, 80 min on 16 cores)
+					thoroughBound := 1
+					if quick {
+						thoroughBound = 2
 					}
 					mc.Register("C01", "events+actions/"+sc.String(), "thorough", func(x *mc.Cell) { c01Scenario(x, sc, thoroughBound, true) })
 					if st == "default" && (pr == "accept" || pr == "limit") && d <= 3 {
